@@ -2,7 +2,7 @@
    Property-level theorems about model/Stats.v (tied to supvisors/statscompiler.py by the three suites of
    harness/drv_stats.py on every run).  Structural statements hold for ALL sample streams (induction over
    fold_left push) and are closed under the global context apart from Coq's primitive float/int declarations;
-   the numeric ones (cpu_in_range_fixed, io_rates_sane, io_rate_sane, cpu_in_range_model_if_fixed) come
+   the numeric ones (cpu_in_range*, io_rates_sane, io_rate_sane) come
    from proofs/StatsFloat.v (Flocq) and depend on the axioms printed by the check. *)
 From Coq Require Import PrimFloat.
 From Sup Require Import Stats StatsProofs StatsFloat.
@@ -95,41 +95,53 @@ Theorem wrapped_counter_no_point : forall h s h' upt cpu mem net disk usage r k,
 Proof. exact host_wrapped_dropped. Qed.
 
 (* ---------------------------------------------------------------- cpu_in_range *)
-(* F25: REFUTED for the current expression 100.0 * work / total *)
-Theorem cpu_in_range_refuted :
-  exists latest ref, counters_ok latest ref = true
-                     /\ cpu_in_range (cpu_one_with cpu_pct_current latest ref) = false.
-Proof. exact StatsProofs.cpu_in_range_refuted. Qed.
+(* PROVED for the model (= /repo since the fix of F25, expression 100.0 * (work / total)):
+   finite, non-negative, non-decreasing counters give a value in [0,100], per core, for every sample pair ... *)
+Theorem cpu_in_range : forall latest ref,
+  cpu_values_ok false (cpu_statistics latest ref) latest ref = true.
+Proof. exact cpu_statistics_in_range. Qed.
 
-Theorem cpu_in_range_refuted_overflow :
-  exists latest ref, counters_ok latest ref = true
-                     /\ f_is_finite (cpu_one_with cpu_pct_current latest ref) = false.
-Proof. exact StatsProofs.cpu_in_range_refuted_overflow. Qed.
+Theorem cpu_in_range_one : forall latest ref,
+  counters_ok latest ref = true -> Stats.cpu_in_range (cpu_one latest ref) = true.
+Proof. exact cpu_one_in_range. Qed.
 
-(* PROVED for 100.0 * (work / total): finite, non-negative, non-decreasing counters give a value in [0,100] *)
+(* ... hence for every CPU value of every point an instance produces *)
+Theorem cpu_in_range_points : forall h s h' r upt cpu mem net disk usage,
+  h_ref h = Some r ->
+  host_push h s = (h', HPoint (upt, cpu, mem, net, disk, usage)) ->
+  cpu_values_ok false cpu (s_cpu s) (s_cpu r) = true.
+Proof. exact host_point_cpu_in_range. Qed.
+
+(* the statement about the expression itself (independent of the switch Stats.cpu_pct) *)
 Theorem cpu_in_range_fixed : forall latest ref,
-  counters_ok latest ref = true -> cpu_in_range (cpu_one_with cpu_pct_fixed latest ref) = true.
+  counters_ok latest ref = true -> Stats.cpu_in_range (cpu_one_with cpu_pct_fixed latest ref) = true.
 Proof. exact StatsFloat.cpu_in_range_fixed. Qed.
 
-(* the model-level statement: vacuous until the one-line switch Stats.cpu_pct is turned to cpu_pct_fixed *)
-Theorem cpu_in_range_model_if_fixed : cpu_pct = cpu_pct_fixed ->
-  forall latest ref, cpu_values_ok false (cpu_statistics latest ref) latest ref = true.
-Proof. exact cpu_statistics_in_range_if_fixed. Qed.
+(* F25 (fixed): the OLD expression 100.0 * work / total is refuted — explains a regression to it *)
+Theorem old_expression_refuted :
+  exists latest ref, counters_ok latest ref = true
+                     /\ Stats.cpu_in_range (cpu_one_with cpu_pct_current latest ref) = false.
+Proof. exact StatsProofs.old_expression_refuted. Qed.
 
-(* the model (and /repo, by the correspondence) uses the refuted expression today.
-   TO UPDATE when the fix is committed and Stats.cpu_pct switched to cpu_pct_fixed: this example (and only
-   this one) stops compiling; replace it by
-     > Theorem cpu_in_range_model :
-     >   forall latest ref, cpu_values_ok false (cpu_statistics latest ref) latest ref = true.
-     > Proof. exact (cpu_in_range_model_if_fixed eq_refl). Qed.
-   (checked on a copy of the tree: everything else compiles unchanged, and the three suites report 0
-   mismatches and an empty F25 class against a /repo copy carrying the fix). *)
-Example model_uses_refuted_expression : model_cpu_leaves_range = true.
-Proof. vm_compute. reflexivity. Qed.
+Theorem old_expression_refuted_overflow :
+  exists latest ref, counters_ok latest ref = true
+                     /\ f_is_finite (cpu_one_with cpu_pct_current latest ref) = false.
+Proof. exact StatsProofs.old_expression_refuted_overflow. Qed.
+
+Example model_on_old_witnesses :
+  cpu_one f25_latest f25_ref = 0x1.9p+6%float /\ cpu_one (0x1p+1020, 0)%float (0, 0)%float = 0x1.9p+6%float.
+Proof. exact cpu_model_on_old_witnesses. Qed.
+
+(* KNOWN (F25b): cpu_process_statistics — a module-level function no class calls — keeps the old shape
+   100.0 * (latest - ref) / host_work and returns 100 + ulp when the process work equals the host work *)
+Theorem cpu_process_statistics_refuted :
+  exists latest ref host v, proc_counters_ok latest ref host = true
+    /\ cpu_process_statistics latest ref host = Ok v /\ Stats.cpu_in_range v = false.
+Proof. exact StatsProofs.cpu_process_statistics_refuted. Qed.
 
 Example cpu_in_range_hypothesis_satisfiable :
   counters_ok (0x1.8p+3, 0x1p+2)%float (0, 0)%float = true
-  /\ cpu_one_with cpu_pct_fixed (0x1.8p+3, 0x1p+2)%float (0, 0)%float = 0x1.2cp+6%float.
+  /\ cpu_one (0x1.8p+3, 0x1p+2)%float (0, 0)%float = 0x1.2cp+6%float.
 Proof. vm_compute. split; reflexivity. Qed.
 
 (* ---------------------------------------------------------------- stopped_process_dropped / pid_change_resets *)
